@@ -626,20 +626,13 @@ Proof.
     unfold typed in H1, H2. rewrite H1, H2. reflexivity.
 Qed.
 
-Lemma no_coll_wf t : has_coll t = false -> has_literal t = true -> wf_ty t = true.
-Proof.
-  induction t; simpl; intros Hc Hl; try reflexivity; try discriminate;
-    try (apply orb_false_elim in Hc as [C1 C2]; apply andb_prop in Hl as [L1 L2]; rewrite IHt1, IHt2 by assumption; reflexivity);
-    auto.
-Qed.
-
-(* value.to_literal() / the reference's literal of a value: the same well-typed literal (APPLY) *)
-Lemma data_of_pval_ok v : forall t, typed v t -> has_literal t = true -> has_coll t = false ->
-  exists d, data_of_pval v = Some d /\ data_of_value t (erase v) = Some d /\ data_has_type t d = true.
+(* value.to_literal() / the reference's literal of a value: the same well-typed literal (APPLY), sets and maps included *)
+Lemma data_of_pval_ok v : forall t, typed v t -> has_literal t = true -> wf_ty t = true ->
+  exists d, data_of_pval v = Some d /\ data_of_value t (erase v) = Some d /\ data_has_type t d = true /\ value_of_data d = erase v.
 Proof.
   induction v as [z|z|z|z|s|s|s|s|b0| |x y IHx IHy|t0|x IHx|x t0 IHx|t0 x IHx|t0 l IHl|t0 l IHl|kt vt l IHl|ta tb body] using pval_ind';
-    intros t Ht Hl Hc; unfold typed in Ht; destruct t; simpl in Ht; try discriminate Ht;
-    simpl in Hl; try discriminate Hl; simpl in Hc; try discriminate Hc; simpl.
+    intros t Ht Hl Hc; pose proof Ht as Ht0; unfold typed in Ht; destruct t; simpl in Ht; try discriminate Ht;
+    simpl in Hl; try discriminate Hl; simpl in Hc; simpl.
   - eexists; repeat split.
   - eexists; repeat split. exact Ht.
   - eexists; repeat split. exact Ht.
@@ -648,16 +641,16 @@ Proof.
   - eexists; repeat split.
   - eexists; repeat split.
   - eexists; repeat split.
-  - apply andb_prop in Ht as [H1 H2]. apply andb_prop in Hl as [L1 L2]. apply orb_false_elim in Hc as [C1 C2].
-    destruct (IHx _ H1 L1 C1) as (d1 & E1 & V1 & T1). destruct (IHy _ H2 L2 C2) as (d2 & E2 & V2 & T2).
-    rewrite E1, E2, V1, V2. eexists; repeat split. simpl. rewrite T1, T2. reflexivity.
+  - apply andb_prop in Ht as [H1 H2]. apply andb_prop in Hl as [L1 L2]. apply andb_prop in Hc as [C1 C2].
+    destruct (IHx _ H1 L1 C1) as (d1 & E1 & V1 & T1 & R1). destruct (IHy _ H2 L2 C2) as (d2 & E2 & V2 & T2 & R2).
+    rewrite E1, E2, V1, V2. eexists; repeat split; simpl; [rewrite T1, T2; reflexivity | congruence].
   - eexists; repeat split.
-  - destruct (IHx _ Ht Hl Hc) as (d & E & V & T). rewrite E, V. simpl. eexists; repeat split. exact T.
-  - apply andb_prop in Ht as [H1 H2]. apply andb_prop in Hl as [L1 L2]. apply orb_false_elim in Hc as [C1 C2].
-    destruct (IHx _ H1 L1 C1) as (d & E & V & T). rewrite E, V. simpl. eexists; repeat split. exact T.
-  - apply andb_prop in Ht as [H1 H2]. apply andb_prop in Hl as [L1 L2]. apply orb_false_elim in Hc as [C1 C2].
-    destruct (IHx _ H2 L2 C2) as (d & E & V & T). rewrite E, V. simpl. eexists; repeat split. exact T.
-  - apply andb_prop in Ht as [H1 H2].
+  - destruct (IHx _ Ht Hl Hc) as (d & E & V & T & R). rewrite E, V. simpl. eexists; repeat split; [exact T | simpl; congruence].
+  - apply andb_prop in Ht as [H1 H2]. apply andb_prop in Hl as [L1 L2]. apply andb_prop in Hc as [C1 C2].
+    destruct (IHx _ H1 L1 C1) as (d & E & V & T & R). rewrite E, V. simpl. eexists; repeat split; [exact T | simpl; congruence].
+  - apply andb_prop in Ht as [H1 H2]. apply andb_prop in Hl as [L1 L2]. apply andb_prop in Hc as [C1 C2].
+    destruct (IHx _ H2 L2 C2) as (d & E & V & T & R). rewrite E, V. simpl. eexists; repeat split; [exact T | simpl; congruence].
+  - (* lists *) apply andb_prop in Ht as [H1 H2].
     assert (G : exists ds,
       (fix go (l0 : list pval) : option (list data) :=
          match l0 with
@@ -674,12 +667,74 @@ Proof.
                      | Some d => match go r with Some ds => Some (d :: ds) | None => None end
                      | None => None
                      end
-         end) (map erase l) = Some ds /\ forallb (data_has_type t) ds = true).
-    { clear H1. induction l as [|x r IHr]; [exists []; auto|].
+         end) (map erase l) = Some ds /\ forallb (data_has_type t) ds = true /\ map value_of_data ds = map erase l).
+    { clear H1 Ht0. induction l as [|x r IHr]; [exists []; auto|].
       simpl in H2. apply andb_prop in H2 as [Hx Hr]. inversion IHl as [|? ? Px Pr]; subst.
-      destruct (Px _ Hx Hl Hc) as (d & E & V & T). destruct (IHr Pr Hr) as (ds & Es & Vs & Ts).
-      simpl. rewrite E, V, Es, Vs. exists (d :: ds). repeat split. simpl. rewrite T, Ts. reflexivity. }
-    destruct G as (ds & Es & Vs & Ts). rewrite Es, Vs. simpl. eexists; repeat split. exact Ts.
+      destruct (Px _ Hx Hl Hc) as (d & E & V & T & R). destruct (IHr Pr Hr) as (ds & Es & Vs & Ts & Rs).
+      simpl. rewrite E, V, Es, Vs. exists (d :: ds). repeat split; simpl; [rewrite T, Ts; reflexivity | congruence]. }
+    destruct G as (ds & Es & Vs & Ts & Rs). rewrite Es, Vs. simpl. eexists; repeat split; [exact Ts | simpl; congruence].
+  - (* sets *) apply andb_prop in Ht as [Ht Hsorted]. apply andb_prop in Ht as [H1 H2]. apply andb_prop in Hc as [Cc Cw].
+    apply typed_set_inv in Ht0 as (l0 & Q & Tl). injection Q as -> <-.
+    assert (G : exists ds,
+      (fix go (l0 : list pval) : option (list data) :=
+         match l0 with
+         | [] => Some []
+         | x :: r => match data_of_pval x with
+                     | Some d => match go r with Some ds => Some (d :: ds) | None => None end
+                     | None => None
+                     end
+         end) l = Some ds /\
+      (fix go (l0 : list value) : option (list data) :=
+         match l0 with
+         | [] => Some []
+         | x :: r => match data_of_value t x with
+                     | Some d => match go r with Some ds => Some (d :: ds) | None => None end
+                     | None => None
+                     end
+         end) (map erase l) = Some ds /\ forallb (data_has_type t) ds = true /\ map value_of_data ds = map erase l).
+    { clear H1 Hsorted Tl. induction l as [|x r IHr]; [exists []; auto|].
+      simpl in H2. apply andb_prop in H2 as [Hx Hr]. inversion IHl as [|? ? Px Pr]; subst.
+      destruct (Px _ Hx Hl Cw) as (d & E & V & T & R). destruct (IHr Pr Hr) as (ds & Es & Vs & Ts & Rs).
+      simpl. rewrite E, V, Es, Vs. exists (d :: ds). repeat split; simpl; [rewrite T, Ts; reflexivity | congruence]. }
+    destruct G as (ds & Es & Vs & Ts & Rs). rewrite Es, Vs. simpl. eexists; repeat split; [|simpl; congruence].
+    simpl. rewrite Ts, Rs. rewrite <- (sorted_transfer t l Tl Cc). exact Hsorted.
+  - (* maps *) apply andb_prop in Ht as [Ht Hsorted]. apply andb_prop in Ht as [Ht H3]. apply andb_prop in Ht as [H1 H2].
+    apply andb_prop in Hl as [L1 L2]. apply andb_prop in Hc as [Hc Cwv]. apply andb_prop in Hc as [Cc Cwk].
+    apply typed_map_inv in Ht0 as (l0 & Q & Tl). injection Q as -> -> <-.
+    destruct (entries_facts t1 t2 l Tl) as (Ek & Tk & _).
+    assert (G : exists ds,
+      (fix go (l0 : list pval) : option (list data) :=
+         match l0 with
+         | [] => Some []
+         | x :: r => match data_of_pval x with
+                     | Some d => match go r with Some ds => Some (d :: ds) | None => None end
+                     | None => None
+                     end
+         end) l = Some ds /\
+      (fix go (l0 : list value) : option (list data) :=
+         match l0 with
+         | [] => Some []
+         | VPair k0 x :: r => match data_of_value t1 k0, data_of_value t2 x, go r with
+                             | Some dk, Some dx, Some ds => Some (DPair dk dx :: ds)
+                             | _, _, _ => None
+                             end
+         | _ :: _ => None
+         end) (map erase l) = Some ds /\
+      forallb (fun x => match x with DPair k0 v0 => data_has_type t1 k0 && data_has_type t2 v0 | _ => false end) ds = true /\
+      map value_of_data ds = map erase l).
+    { clear H1 H2 H3 Hsorted Ek Tk. induction Tl as [|x r (ek & ew & -> & Hk & Hw) Tr IHr]; [exists []; auto|].
+      inversion IHl as [|? ? Px Pr]; subst.
+      assert (Hp : typed (PPair ek ew) (TPair t1 t2)) by (unfold typed in *; simpl; rewrite Hk, Hw; reflexivity).
+      assert (Lp : has_literal (TPair t1 t2) = true) by (simpl; rewrite L1, L2; reflexivity).
+      assert (Wp : wf_ty (TPair t1 t2) = true) by (simpl; rewrite Cwk, Cwv; reflexivity).
+      destruct (Px _ Hp Lp Wp) as (d & E & V & T & R). destruct (IHr Pr) as (ds & Es & Vs & Ts & Rs).
+      simpl in E, V, R. simpl.
+      destruct (data_of_pval ek) as [dk|]; [|discriminate E]. destruct (data_of_pval ew) as [dw|]; [|discriminate E].
+      injection E as <-. destruct (data_of_value t1 (erase ek)) as [dk'|]; [|discriminate V].
+      destruct (data_of_value t2 (erase ew)) as [dw'|]; [|discriminate V]. injection V as -> ->.
+      rewrite Es, Vs. exists (DPair dk dw :: ds). simpl in T. repeat split; simpl; [rewrite T, Ts; reflexivity | simpl in R; congruence]. }
+    destruct G as (ds & Es & Vs & Ts & Rs). rewrite Es, Vs. simpl. eexists; repeat split; [|simpl; congruence].
+    simpl. rewrite Ts. simpl. rewrite <- (map_map value_of_data v_key), Rs, <- Ek. rewrite <- (sorted_transfer t1 _ Tk Cc). exact Hsorted.
 Qed.
 
 (* ------------------------------------------------------------------------------------------ *)
@@ -1026,16 +1081,16 @@ Proof.
     destruct s as [|ta [|[] r]]; try discriminate Htc. destruct a; try discriminate Htc.
     match type of Htc with (if ?c then _ else _) = _ => destruct c eqn:Q; [|discriminate Htc] end.
     injection Htc as <-. apply andb_prop in Q as [Q Q3]. apply andb_prop in Q as [Q1 Q2].
-    apply ty_eqb_eq in Q1. subst a1. simpl in Q3. apply negb_true_iff in Q3.
+    apply ty_eqb_eq in Q1. subst a1.
     inversion Hs as [|lft ? rest0 ? Hl Hr0]; subst. inversion Hr0 as [|lamv ? rest ? Hlam Hr]; subst.
     apply typed_lambda_inv in Hlam as (body & -> & Hbody).
-    destruct (data_of_pval_ok lft ta Hl Q2 Q3) as (d & E1 & E2 & E3).
+    destruct (data_of_pval_ok lft ta Hl Q2 Q3) as (d & E1 & E2 & E3 & _).
     exists [lft; PLam (TPair ta a2) b body], rest. split; [reflexivity | split; [reflexivity|]].
     cbn [ref_simple map erase]. rewrite E2, (typed_rt_type lft ta Hl), ty_eqb_refl, E1.
     eexists; split; [reflexivity | split; [reflexivity | constructor; [|assumption]]].
     (* the closure { PUSH ta d ; PAIR ; body } has type lambda a2 b *)
     unfold typed. cbn [pv_typedb]. rewrite !ty_eqb_refl. simpl andb.
-    unfold lam_body_ok in *. unfold typecheck_nr in *. simpl. rewrite E3, (no_coll_wf ta Q3 Q2). simpl.
+    unfold lam_body_ok in *. unfold typecheck_nr in *. simpl. rewrite E3, Q3. simpl.
     remember (typecheck_gen true body [TPair ta a2]) as tb eqn:Eb. clear Eb.
     destruct tb as [[s1|]|]; [|reflexivity | discriminate Hbody].
     destruct s1 as [|b' [|]]; try discriminate Hbody. simpl. exact Hbody.
@@ -1603,8 +1658,6 @@ Qed.
 Lemma tc_simple_sub i s x : tc_simple true i s = Some x -> tc_simple false i s = Some x.
 Proof.
   destruct i; simpl; try (intros H; exact H); try discriminate.
-  - (* APPLY *) destruct s as [|ta [|[] r]]; auto. destruct a; auto. destruct (ty_eqb ta a1); simpl; auto.
-    destruct (has_literal ta); simpl; auto. destruct (has_coll ta); simpl; [discriminate | auto].
 Qed.
 
 Lemma tc_nr_sub c : forall s R, typecheck_gen true c s = Some R -> typecheck_gen false c s = Some R.
